@@ -96,7 +96,14 @@ func has(ss []string, s string) bool {
 }
 
 // build registers on schema s every field f with serves(f).
-func build(s *schemabuilder.Schema, serves func(f string) bool) {
+// the keys a service asks for when User objects are handed to it: all fields, the id only, id and orgId
+type userKey1 struct{ Id int64 }
+type userKey2 struct {
+	Id    int64
+	OrgId int64
+}
+
+func build(s *schemabuilder.Schema, serves func(f string) bool, keyStyle int) {
 	needUser := serves("User.secret") || serves("User.score") || serves("User.device") || serves("User.devices") || serves("User.tags") ||
 		serves("User.scaled") || serves("Query.userById") || serves("Query.solo") || serves("Query.users") || serves("Query.user1") || serves("Query.nobody") || serves("Query.everyone") || serves("Device.owner") || serves("Mutation.newUser")
 	needDevice := serves("Device.temp") || serves("Device.owner") || serves("Query.devices") || serves("Query.devicesN") || serves("User.device") || serves("User.devices") || serves("Mutation.touch")
@@ -105,7 +112,30 @@ func build(s *schemabuilder.Schema, serves func(f string) bool) {
 		q.FieldFunc("count", func() int64 { return 3 })
 	}
 	if needUser {
-		u := s.Object("User", User{}, schemabuilder.FetchObjectFromKeys(func(args struct{ Keys []*User }) []*User { return args.Keys }))
+		var fetch schemabuilder.ObjectOption
+		switch keyStyle {
+		case 1:
+			fetch = schemabuilder.FetchObjectFromKeys(func(args struct{ Keys []userKey1 }) []*User {
+				out := make([]*User, 0, len(args.Keys))
+				for _, k := range args.Keys {
+					out = append(out, usr(k.Id))
+				}
+				return out
+			})
+		case 2:
+			fetch = schemabuilder.FetchObjectFromKeys(func(args struct{ Keys []userKey2 }) []*User {
+				out := make([]*User, 0, len(args.Keys))
+				for _, k := range args.Keys {
+					u := usr(k.Id)
+					u.OrgId = k.OrgId // what the gateway handed over, not what this service could look up
+					out = append(out, u)
+				}
+				return out
+			})
+		default:
+			fetch = schemabuilder.FetchObjectFromKeys(func(args struct{ Keys []*User }) []*User { return args.Keys })
+		}
+		u := s.Object("User", User{}, fetch)
 		u.Key("id")
 		if serves("User.secret") {
 			u.FieldFunc("secret", func(ctx context.Context, x *User) string { return fmt.Sprintf("s%d", x.Id) })
@@ -202,6 +232,9 @@ func build(s *schemabuilder.Schema, serves func(f string) bool) {
 	}
 }
 
+// keyStyleOf: s1 wants all fields of a User as keys, s2 the id only, s3 id and orgId.
+func keyStyleOf(svc string) int { return map[string]int{"s1": 0, "s2": 1, "s3": 2}[svc] }
+
 // BuildInto registers on s what service svc serves under partition p; false if it serves nothing.
 func BuildInto(s *schemabuilder.Schema, p Partition, svc string) bool {
 	any := false
@@ -213,14 +246,14 @@ func BuildInto(s *schemabuilder.Schema, p Partition, svc string) bool {
 	if !any {
 		return false
 	}
-	build(s, func(f string) bool { return has(p[f], svc) })
+	build(s, func(f string) bool { return has(p[f], svc) }, keyStyleOf(svc))
 	return true
 }
 
 // Monolith returns the single server implementing everything.
 func Monolith() *graphql.Schema {
 	s := schemabuilder.NewSchemaWithName("mono")
-	build(s, func(string) bool { return true })
+	build(s, func(string) bool { return true }, 0)
 	return s.MustBuild()
 }
 
@@ -296,7 +329,7 @@ func Gateway(ctx context.Context, p Partition, selector federation.ServiceSelect
 			continue
 		}
 		s := schemabuilder.NewSchemaWithName(svc)
-		build(s, func(f string) bool { return has(p[f], svc) })
+		build(s, func(f string) bool { return has(p[f], svc) }, keyStyleOf(svc))
 		built := s.MustBuild()
 		LastExposed[svc] = Exposed(built)
 		srv, err := federation.NewServer(built)
